@@ -31,6 +31,12 @@ def gen_sequence(rng, ctx, size="small"):
             ed = rng.choice([2, 3, 4, 4])
             tg = gen.TGen(rng, ctx.T, ed, ops=True, max_depth=2, dseqs=dseqs)
             t = tg.template()
+            if rng.random() < 0.15:
+                # time / location descriptors in front of an inner replication, at nesting depth >= 2 (run-time location tracking)
+                loc = rng.choice([d for d in (4024, 4025, 5002, 6002, 7002, 4004, 5001, 6001, 7004, 4011, 5011, 6011) if d in ctx.T.B])
+                inner = [101000 + rng.choice([1, 2, 3])] + tg.elem(("num",))
+                body = [loc] + inner + tg.elem(("num", "code"))
+                t = ([100000 + len(body) * 1000 + rng.choice([1, 2])] + body + tg.elem()) if rng.random() < 0.7 else ([100000 + len(body) * 1000, 31001] + body)
             try:
                 gen.gen_dataset(rng, ctx.T, ed, t, 1)
             except gen.Reject:
